@@ -10,6 +10,9 @@ ops:
 * `cfg <prefix-hex> <minLen> <maxLen>`            address configuration of the running app
 * `spaces <name>…`                                  the store spaces the gov keeper knows
 * `bech <str-hex>`                                  `sdk.AccAddressFromBech32`       → `ok:<bytes-hex>` | `err`
+* `eip55 <str-hex>`                                 environment: the string is an EIP-55 spelling (Keccak not modelled)
+* `parse <str-hex>`                                 `fxtypes.ParseAddress`           → `ok:<bytes-hex>` | `err`
+* `evm20 <str-hex>`                                 `common.BytesToAddress(addr)` with `addr, _ := sdk.AccAddressFromBech32(s)` → `<20 bytes hex>`
 * `fold <a-hex> <b-hex>`                            `strings.EqualFold`             → `true` | `false`
 * `call <msg> <gov-hex> <auth-hex> <payloadOk> <chain> <govOk> <non-empty list fields>`   one routed message → the stage it ends in
 * `hcall <type> <msg> <gov-hex> <auth-hex> <chain> <govOk> <non-empty list fields>`   the method serving the message on a value of that concrete type, called directly
@@ -22,7 +25,7 @@ ops:
 open FxVerif FxVerif.Util FxVerif.Gen FxVerif.Model.C16
 
 structure St where
-  cfg : AddrCfg := ⟨strOf "cosmos", 1, 255⟩
+  cfg : AddrCfg := { pref := strOf "cosmos", minLen := 1, maxLen := 255 }
   spaces : List String := []
   stores : Stores := []
 
@@ -33,7 +36,8 @@ def unhexS (w : String) : Option Str := (unhexStr w).map toStr
 def mkEnv (cfg : AddrCfg) (gov : Str) (lists : List String := []) (good : Bool := true) : Env :=
   { cfg := cfg, gov := gov, modAddr := fun _ => [], field := fun _ => [], otherS := fun _ => [],
     otherB := fun _ => false, callB := fun _ => false, otherH := fun _ => none,
-    listNonEmpty := fun f => lists.contains f, payloadGood := good, clob := fun _ => none }
+    listNonEmpty := fun f => lists.contains f, payloadGood := good, clob := fun _ => none,
+    stateModAddr := fun _ => gov }  -- the x/auth state holds the module address for the governance account (monitored)
 
 /-- anything after a guard "takes effect": the work changes the state and reports success -/
 def world (routeOk : Bool) : World Nat :=
@@ -77,7 +81,20 @@ def step (st : St) (line : String) : St × String :=
   | "reset" :: _ => ({ st with stores := [] }, "ok")
   | ["cfg", p, lo, hi] =>
     match unhexS p with
-    | some p => ({ st with cfg := ⟨p, lo.toNat!, hi.toNat!⟩ }, "ok")
+    | some p => ({ st with cfg := { st.cfg with pref := p, minLen := lo.toNat!, maxLen := hi.toNat! } }, "ok")
+    | none => (st, "bad-op")
+  | ["eip55", h] =>
+    -- environment: this string is the EIP-55 spelling of a 0x hex address (Keccak is not modelled)
+    match unhexS h with
+    | some x => let old := st.cfg.eip55; ({ st with cfg := { st.cfg with eip55 := fun s => s == x || old s } }, "ok")
+    | none => (st, "bad-op")
+  | ["parse", h] =>
+    match unhexS h with
+    | some s => (st, match parseAddress st.cfg s with | some bz => "ok:" ++ hex bz | none => "err")
+    | none => (st, "bad-op")
+  | ["evm20", h] =>
+    match unhexS h with
+    | some s => (st, hex (decodeOr st.cfg .evm20 s))
     | none => (st, "bad-op")
   | "spaces" :: names => ({ st with spaces := names }, "ok")
   | ["casreset"] => ({ st with stores := [] }, "ok")
